@@ -5,6 +5,7 @@ from vyper import ast as vy_ast
 from vyper.abi_types import ABI_Address, ABIType
 from vyper.ast.validation import validate_call_args
 from vyper.exceptions import (
+    CompilerPanic,
     InterfaceViolation,
     NamespaceCollision,
     StructureException,
@@ -223,14 +224,25 @@ class InterfaceT(_UserType):
         InterfaceT
             primitive interface type
         """
-        functions: list = cls._dedup_default_arg_overloads(abi)
-        events: list = []
-        errors: list = []
+        # the ABI comes from a user-supplied json file: a malformed one must
+        # end in a diagnostic, not in a KeyError/TypeError/... (-> CompilerPanic)
+        if not isinstance(abi, list) or not all(isinstance(i, dict) for i in abi):
+            raise StructureException(
+                f"Malformed ABI for interface '{name}': expected a list of json objects"
+            )
+        try:
+            functions: list = cls._dedup_default_arg_overloads(abi)
+            events: list = []
+            errors: list = []
 
-        for item in [i for i in abi if i.get("type") == "event"]:
-            events.append((item["name"], EventT.from_abi(item)))
-        for item in [i for i in abi if i.get("type") == "error"]:
-            errors.append((item["name"], ErrorT.from_abi(item)))
+            for item in [i for i in abi if i.get("type") == "event"]:
+                events.append((item["name"], EventT.from_abi(item)))
+            for item in [i for i in abi if i.get("type") == "error"]:
+                errors.append((item["name"], ErrorT.from_abi(item)))
+        except (KeyError, TypeError, AttributeError, ValueError, IndexError, CompilerPanic) as e:
+            raise StructureException(
+                f"Malformed ABI for interface '{name}': {type(e).__name__}: {e}"
+            ) from None
 
         return cls._from_lists(name, None, functions, events, errors)
 
